@@ -105,6 +105,15 @@ def fetch(gw, nodes, ftype, fver, image, order_name, viols, stats, rep, label):
     stats["images_verified"] += 1
 
 
+def _data_record_inside(line, a, b):
+    """True for a data record of an Intel-HEX text whose bytes all lie inside [a, b)."""
+    if not line.startswith(":") or line[7:9] != "00":
+        return False
+    n = int(line[1:3], 16)
+    addr = int(line[3:7], 16)
+    return n > 0 and a <= addr and addr + n <= b
+
+
 def check_images(chunk):
     from ..world import install_shims
 
@@ -130,8 +139,20 @@ def check_images(chunk):
                     return recs
 
             path = os.path.join(d, "fw.hex")
+            gap = length % 3 == 0 and 40 <= length
+            if gap:
+                # a HEX file with an address gap: the unprogrammed bytes read as erased flash (0xFF)
+                a, b = length // 3, length // 3 + 16
+                image = image[:a] + b"\xff" * (b - a) + image[b:]
+                text = intel_hex(image, rec, ela, None)
+                keep = [ln for ln in text.splitlines() if not _data_record_inside(ln, a, b)]
+                text = "\n".join(keep) + "\n"
+                if not any(_data_record_inside(ln, a, b) for ln in intel_hex(image, rec, ela, None).splitlines()):
+                    gap = False
             with open(path, "w", encoding="utf-8") as fh:
-                fh.write(intel_hex(image, rec, ela, order))
+                fh.write(text if gap else intel_hex(image, rec, ela, order))
+            if gap:
+                stats["hex_files_with_gap"] += 1
             rep = {"kind": "input", "check": PROP, "case": list(case)}
             label = f"{family}"
             gw = make_gateway()
@@ -224,7 +245,7 @@ def run(tier):
     v2, s2, m2 = e5.pmap(check_crc, crc_cases)
     report.add_all(v1 + v2)
     # E1 part: every request order prefix of length <= depth for one 8-block image, two nodes
-    bfs_stats = ota_bfs(report, depth=3 if tier == "quick" else 4)
+    bfs_stats = ota_bfs(report, depth=4 if tier == "quick" else 5)
     stats = s1 + s2
     cov = report.coverage
     cov["evaluations"] = stats["images"] + stats["crc_basis_cases"] + bfs_stats["transitions"]
@@ -264,10 +285,17 @@ def ota_bfs(report, depth):
                 evs.append(rx(f"{nid};255;4;0;0;" + words_to_hex(1, 0, 8, 0, 0x0102)))
                 for blk in range(8):
                     evs.append(rx(f"{nid};255;4;0;2;" + words_to_hex(1, 1, blk)))
+            # a second registered firmware requested by a node scheduled for the first one: the response
+            # must carry the data of the firmware whose type/version it echoes
+            evs.append(rx("1;255;4;0;2;" + words_to_hex(1, 2, 0)))
+            evs.append(rx("1;255;4;0;2;" + words_to_hex(1, 2, 9)))
+            # the update is issued again (same key) in the middle of a session
+            evs.append(("fw", 1, 1, 1, "F1"))
+            evs.append(("fw", 2, 1, 2, None))
             return evs
 
         def roots(self, cfg):
-            return [(rx("1;255;0;0;17;2.2"), rx("2;255;0;0;17;2.2"), ("fw", (1, 2), 1, 1, "F1"))]
+            return [(rx("1;255;0;0;17;2.2"), rx("2;255;0;0;17;2.2"), ("fw", 9, 1, 2, "F2"), ("fw", (1, 2), 1, 1, "F1"))]
 
         def new_monitor(self, cfg):
             return GatewayMonitor(PROP, "2.2", {"ota", "exc"})
